@@ -37,8 +37,9 @@ class PrometheusPlugin(MetricProcessor):
         self.__cache = {}
         self.__lock = threading.Lock()
 
-    def __check_cache(self, name, type_name, from_default):
-        cache_key = f'{name}_{type_name}'
+    def __check_cache(self, namespace, name, type_name, from_default):
+        # the namespace is part of the name of a metric: 'orders' of namespace 'shop' is not 'orders' of 'billing'
+        cache_key = f'{namespace}_{name}_{type_name}'
         if cache_key in self.__cache:
             return self.__cache[cache_key]
         default = from_default()
@@ -59,7 +60,7 @@ class PrometheusPlugin(MetricProcessor):
         try:
             with self.__lock:
                 label_keys = list(labels.keys())
-                counter: Counter = self.__check_cache(name, "counter",
+                counter: Counter = self.__check_cache(namespace, name, "counter",
                                                       lambda: Counter(name=name, documentation=help_string or "",
                                                                       labelnames=label_keys,
                                                                       namespace=namespace, unit=unit))
@@ -83,7 +84,7 @@ class PrometheusPlugin(MetricProcessor):
         try:
             with self.__lock:
                 label_keys = list(labels.keys())
-                gauge: Gauge = self.__check_cache(name, "gauge",
+                gauge: Gauge = self.__check_cache(namespace, name, "gauge",
                                                   lambda: Gauge(name=name, documentation=help_string or "",
                                                                 labelnames=label_keys,
                                                                 namespace=namespace, unit=unit))
@@ -108,7 +109,7 @@ class PrometheusPlugin(MetricProcessor):
         try:
             with self.__lock:
                 label_keys = list(labels.keys())
-                histogram: Histogram = self.__check_cache(name, "histogram",
+                histogram: Histogram = self.__check_cache(namespace, name, "histogram",
                                                           lambda: Histogram(name=name, documentation=help_string or "",
                                                                             labelnames=label_keys,
                                                                             namespace=namespace, unit=unit))
@@ -133,7 +134,7 @@ class PrometheusPlugin(MetricProcessor):
         try:
             with self.__lock:
                 label_keys = list(labels.keys())
-                summary: Summary = self.__check_cache(name, "summary",
+                summary: Summary = self.__check_cache(namespace, name, "summary",
                                                       lambda: Summary(name=name, documentation=help_string or "",
                                                                       labelnames=label_keys,
                                                                       namespace=namespace, unit=unit))
